@@ -8,7 +8,10 @@ Local Open Scope N_scope.
 Record obs := { o_refs_match : bool; o_closed : bool; o_clone_equal : bool; o_pull_equal : bool;
                 o_nonff_refused : bool; o_force_ok : bool; o_race_ok : bool }.
 
-Record input := { i_universe : graph; i_heads : list addr; i_remote_has : store }.
+(* i_points: for every injected failure of an interrupted push / fetch / pull on the REAL code, the
+   destination's contents (universe chunks it holds) and all its dataset heads *)
+Record input := { i_universe : graph; i_heads : list addr; i_remote_has : store;
+                  i_points : list (store * list addr) }.
 Definition case := (input * obs)%type.
 
 (* the model's transfer into an empty remote: copy the missing closure, then set the refs *)
@@ -34,9 +37,19 @@ Definition obs_eqb (a b : obs) : bool :=
 
 (* the property on the implementation: every pushed head has its whole closure at the remote
    (data_complete, evaluated on the remote's real contents), refs match, nothing dangles, read-backs agree,
-   a non-fast-forward push is refused, at most one of two racing pushes wins *)
+   a non-fast-forward push is refused, at most one of two racing pushes wins; and after every interruption
+   point of every interrupted transfer each destination ref has its full closure and the destination is closed *)
+(* closedness of a destination within the universe (C07 at the sink) *)
+Definition closedb (u : graph) (s : store) : bool :=
+  forallb (fun x => forallb (has s) (refs u x)) s.
+
+(* ref_after_data on an implementation state *)
+Definition point_ok (u : graph) (p : store * list addr) : bool :=
+  forallb (data_complete u (fst p)) (snd p) && closedb u (fst p).
+
 Definition oracle (i : input) (o : obs) : bool :=
   forallb (data_complete (i_universe i) (i_remote_has i)) (i_heads i)
+  && forallb (point_ok (i_universe i)) (i_points i)
   && o_refs_match o && o_closed o && o_clone_equal o && o_pull_equal o && o_nonff_refused o && o_force_ok o && o_race_ok o.
 
 Definition check_case (c : case) : N :=
